@@ -44,13 +44,34 @@ Theorem c13_render_canonical_form : forall d : dec, canonical_text (render d).
 Proof. exact render_canonical_text. Qed.
 Print Assumptions c13_render_canonical_form.
 
+(* ToXText and the "=" operator as the code has them since the render size limit (types.MaxRenderSize = 10^6; a number
+   is charged 1 + BitLen(coefficient)/3 + |exponent|): BELOW the limit ToXText is the rendering above, its text
+   converts back to the number, and "=" on two numbers is numeric equality; ABOVE it ToXText and "=" are error values
+   (1e-1000000 is the first power of ten refused: Example num_render_limit; KNOWN_FINDINGS
+   number-text:value-over-render-size).  The theorems above speak about XNumber.Render, which has no limit. *)
+Theorem c13_number_text_roundtrip : forall d : dec, num_render_ok d = true -> (int32_min <= dexp d)%Z ->
+  exists t d', to_text_num d = Some t /\ parse_number t = Some d' /\ dec_eq d' d.
+Proof. exact to_text_num_roundtrip. Qed.
+Print Assumptions c13_number_text_roundtrip.
+
+Theorem c13_equal_operator : forall a b : dec, num_render_ok a = true -> num_render_ok b = true ->
+  equal_op_num a b = Some (dec_eqb a b).
+Proof. exact equal_op_num_spec. Qed.
+Print Assumptions c13_equal_operator.
+
+Theorem c13_over_render_size_is_error : forall a b : dec,
+  (num_render_ok a = false -> to_text_num a = None)
+  /\ (num_render_ok a = false \/ num_render_ok b = false -> equal_op_num a b = None).
+Proof. exact (fun a b => conj (to_text_num_over a) (equal_op_num_over a b)). Qed.
+Print Assumptions c13_over_render_size_is_error.
+
 (* "=" with a text operand: the text is compared as written, so a number equals a text that reads as a number
    exactly when the text is the canonical rendering of a numerically equal number (1 = "1", not 1 = "1.0").
    Scope of the "=" clause here: number x number and number x text; two datetimes are "=" iff their ISO renderings
    are the same text (one instant shown in two zones is not "="), which is definitional and not a theorem. *)
-Theorem c13_equal_number_text : forall (a : dec) (s : text) (d : dec), parse_number s = Some d ->
-  (equal_num_text a s = true <-> s = render d /\ dec_eq a d).
-Proof. exact equal_num_text_spec. Qed.
+Theorem c13_equal_number_text : forall (a : dec) (s : text) (d : dec), num_render_ok a = true -> parse_number s = Some d ->
+  exists r, equal_op_num_text a s = Some r /\ (r = true <-> s = render d /\ dec_eq a d).
+Proof. exact equal_op_num_text_spec. Qed.
 Print Assumptions c13_equal_number_text.
 
 (* the stored JSON form of a number (flows.Value.Number in contact fields and session JSON): what XNumber.MarshalJSON
@@ -170,9 +191,9 @@ Theorem c13_envformat_instant_partial : forall (offset : Z -> Z) (zend : Z -> op
 Proof. exact (format_datetime_instant_with (Tod 0 0 0 0)). Qed.
 Print Assumptions c13_envformat_instant_partial.
 
-(* refuted in a repeated hour: zone +2h until unix 10^9 then +1h, YYYY-MM-DD tt:mm:ss (no precision lost): the
-   earlier 2001-09-09 03:36:40 is written without its offset and read back as the later 03:36:40, 3600 s on,
-   although time.Date "resolves" and all wall-clock fields agree
+(* refuted in a repeated hour, with the input of the known finding: Europe/Dublin 1992-10-25 (+1:00 until 01:00 UTC,
+   then +0:00), MM-DD-YYYY h:mm:ss aa (no precision lost): 01:59:01 +01:00 is written "10-25-1992 1:59:01 am" and
+   read back as 01:59:01 +00:00, 3600 s on, although time.Date "resolves" and all wall-clock fields agree
    (KNOWN_FINDINGS: envformat-datetime-roundtrip:repeated-hour-resolved-to-other-instant) *)
 Theorem c13_envformat_instant_refuted : exists (offset : Z -> Z) (e : env) (t : Z),
   std_markers e /\ in_year_range (f_year (fields_of offset t))
@@ -182,6 +203,16 @@ Theorem c13_envformat_instant_refuted : exists (offset : Z -> Z) (e : env) (t : 
   /\ fields_of offset (t + 3600 * giga) = fields_of offset t.
 Proof. exact (ex_intro _ fold_zone (ex_intro _ fold_env (ex_intro _ fold_instant fold_witness))). Qed.
 Print Assumptions c13_envformat_instant_refuted.
+
+(* the other direction of the same finding: Pacific/Apia 1892-07-04, the day the date line moved, occurs twice; the
+   later 01:53:52 -11:26:56 is written "04-07-1892 1:53 am" and read back as the EARLIER 01:53, 24 h before *)
+Theorem c13_envformat_repeated_day_refuted :
+  fields_of apia apia_instant = Fields 1892 7 4 1 53 52 0
+  /\ datetime_from_string apia (fun _ => None) apia_env (format_datetime apia apia_env apia_instant)
+     = Some (apia_instant - 52 * giga - 86400 * giga)
+  /\ fields_of apia (apia_instant - 52 * giga - 86400 * giga) = Fields 1892 7 4 1 53 0 0.
+Proof. exact repeated_day_witness. Qed.
+Print Assumptions c13_envformat_repeated_day_refuted.
 
 (* dates: Render (YYYY-MM-DD, whatever the environment) and Format(env) both read back as the same date *)
 Theorem c13_date_roundtrip : forall (e : env) (y m d : Z), valid_date y m d = true -> in_year_range y ->
@@ -205,20 +236,24 @@ Print Assumptions c13_time_roundtrip.
    written from the meaning of documents: numerically equal numbers, arrays element by element, objects compared
    key by key on the LAST member of each key, in any order (proofs/JsonTextProofs.v). *)
 
-(* partial: json(parse_json(doc)) succeeds and is JSON-equivalent to doc for every document - any nesting, any
-   strings, duplicate and case-variant keys, members named __default__ - whose numbers have a decimal exponent in
-   -1000..1000 and whose strings and keys have no half surrogate pair (missing for the full statement: exactly
-   those two kinds of content, see c13_json_roundtrip_refuted and the error-branch theorem below) *)
-Theorem c13_json_roundtrip_partial : forall j : json, good j = true ->
-  exists j', json_roundtrip j = Some j' /\ jequiv j' j.
+(* partial: json(parse_json(doc)) succeeds and is JSON-equivalent to doc for every document - any strings, duplicate
+   and case-variant keys, members named __default__ - whose numbers have a decimal exponent in -1000..1000, whose
+   strings and keys have no half surrogate pair, and whose value stays within the render size limit of ToXJSON
+   ([render_size]: 1 + dc * depth for every value - dc, the charge per level of nesting, is measured on the code by the
+   driver on every run and is 1 today, the theorem holds for any -, the bytes of strings and keys, the digits of numbers; MaxRenderSize =
+   10^6, read from the code on every run).  Missing for the full statement: exactly those three kinds of documents -
+   c13_json_roundtrip_refuted, c13_json_number_out_of_range, c13_json_over_render_size.  NESTING is bounded by the
+   third while dc = 1: 1413 arrays inside one another are written back, 1414 are not (c13_json_nesting_limit). *)
+Theorem c13_json_roundtrip_partial : forall (dc : Z) (j : json), good j = true -> render_ok dc true (of_json j) = true ->
+  exists j', json_roundtrip dc j = Some j' /\ jequiv j' j.
 Proof. exact json_roundtrip_equiv. Qed.
 Print Assumptions c13_json_roundtrip_partial.
 
 (* refuted for all documents: [1e1001] is written back as [null]; {"k":"\ud800x","b":1} as {"b":1}
    (KNOWN_FINDINGS: json-roundtrip:number-exponent-beyond-1000, json-roundtrip:lone-surrogate-escape) *)
 Theorem c13_json_roundtrip_refuted :
-  (json_roundtrip (JArr [JNum 1 1001]) = Some (JArr [JNull]) /\ ~ jequiv (JArr [JNull]) (JArr [JNum 1 1001]))
-  /\ (json_roundtrip (JObj [([107%N], JStr [55296%N; 120%N]); ([98%N], JNum 1 0)]) = Some (JObj [([98%N], JNum 1 0)])
+  (json_roundtrip 1 (JArr [JNum 1 1001]) = Some (JArr [JNull]) /\ ~ jequiv (JArr [JNull]) (JArr [JNum 1 1001]))
+  /\ (json_roundtrip 1 (JObj [([107%N], JStr [55296%N; 120%N]); ([98%N], JNum 1 0)]) = Some (JObj [([98%N], JNum 1 0)])
       /\ ~ jequiv (JObj [([98%N], JNum 1 0)]) (JObj [([107%N], JStr [55296%N; 120%N]); ([98%N], JNum 1 0)])).
 Proof. exact json_roundtrip_witnesses. Qed.
 Print Assumptions c13_json_roundtrip_refuted.
@@ -226,11 +261,24 @@ Print Assumptions c13_json_roundtrip_refuted.
 (* the error branch, explicitly: such a number is an error value - json() fails on it at top level, writes null
    for it in an array and omits the member in an object *)
 Theorem c13_json_number_out_of_range : forall m e : Z, exp_ok e = false ->
-  json_roundtrip (JNum m e) = None
-  /\ json_roundtrip (JArr [JNum m e]) = Some (JArr [JNull])
-  /\ json_roundtrip (JObj [([97%N], JNum m e)]) = Some (JObj []).
+  json_roundtrip 1 (JNum m e) = None
+  /\ json_roundtrip 1 (JArr [JNum m e]) = Some (JArr [JNull])
+  /\ json_roundtrip 1 (JObj [([97%N], JNum m e)]) = Some (JObj []).
 Proof. exact json_roundtrip_bad_number. Qed.
 Print Assumptions c13_json_number_out_of_range.
+
+(* the error branch of the size limit: such a document is not written at all (KNOWN_FINDINGS
+   json-roundtrip:value-over-render-size) *)
+Theorem c13_json_over_render_size : forall (dc : Z) (j : json), render_ok dc true (of_json j) = false -> json_roundtrip dc j = None.
+Proof. exact json_roundtrip_over_size. Qed.
+Print Assumptions c13_json_over_render_size.
+
+Theorem c13_json_nesting_limit :
+  good (nest 1412) = true /\ render_ok 1 true (of_json (nest 1412)) = true /\ json_roundtrip 1 (nest 1412) = Some (nest 1412)
+  /\ good (nest 1413) = true /\ render_ok 1 true (of_json (nest 1413)) = false /\ json_roundtrip 1 (nest 1413) = None
+  /\ json_roundtrip 0 (nest 1413) = Some (nest 1413).
+Proof. exact nest_limit. Qed.
+Print Assumptions c13_json_nesting_limit.
 
 (* JSON equivalence is reflexive (and, by the Example in proofs/, not the full relation) *)
 Theorem c13_jequiv_refl : forall j : json, jequiv j j.
@@ -268,3 +316,32 @@ Print Assumptions c13_field_datetime.
 Theorem c13_stored_datetime_whole_minutes : forall off r : Z, off mod 60 = 0 -> r mod 1000 = 0 -> as_stored off r = r.
 Proof. exact as_stored_whole_minutes. Qed.
 Print Assumptions c13_stored_datetime_whole_minutes.
+
+(* the property-level statements for a stored datetime: the same instant at the rendered precision.  ISO text: in a
+   zone with a whole-minute offset the field stores t truncated to microseconds.  Environment format: under the
+   hypotheses of c13_envformat_instant_partial and a whole-minute offset the field stores t with exactly the unrendered
+   part removed.  (Partial: the missing cases are those of the ToXDateTime theorems - offset seconds, gaps, repeated
+   local times, other am/pm markers.) *)
+Theorem c13_field_datetime_instant_partial : forall (fill : tod) (offset offset' : Z -> Z) (zend : Z -> option Z) (e : env) (t c : Z),
+  in_year_range (f_year (fields_of offset t)) -> -86400 < offset (unix_of t) < 86400 ->
+  offset (unix_of t) = c -> c mod 60 = 0 ->
+  (exists n, field_parse fill offset' zend e (iso offset t) = Some (n, Some (t - t mod 1000)))
+  /\ (std_markers e ->
+      let f := fields_of offset t in
+      let w := wall_of (f_year f) (f_month f) (f_day f) (f_hour f) (f_min f) (secs_of (e_tf e) (f_sec f)) in
+      offset w = c -> offset (w - c) = c ->
+      exists n, field_parse fill offset zend e (format_datetime offset e t)
+                = Some (n, Some ((unix_of t - (f_sec f - secs_of (e_tf e) (f_sec f))) * giga))).
+Proof.
+  exact (fun fill offset offset' zend e t c Hy Hoff Hc H60 =>
+           conj (field_parse_iso_instant fill offset offset' zend e t Hy Hoff (eq_ind_r (fun x => x mod 60 = 0) H60 Hc))
+                (fun Hm H1 H2 => field_parse_format_instant fill offset zend e t c Hm Hy Hc H1 H2 H60)).
+Qed.
+Print Assumptions c13_field_datetime_instant_partial.
+
+(* refuted at field level with the Dublin input: FieldValues.Parse stores the other instant of the repeated hour *)
+Theorem c13_field_datetime_instant_refuted : forall fill : tod,
+  exists n, field_parse fill fold_zone (fun _ => None) fold_env (format_datetime fold_zone fold_env fold_instant)
+            = Some (n, Some (fold_instant + 3600 * giga)).
+Proof. exact fold_field_witness. Qed.
+Print Assumptions c13_field_datetime_instant_refuted.
